@@ -10,6 +10,9 @@ for k in range(6):
 for n in ['add_node_empty', 'add_node_front', 'add_node_mid', 'add_node_end', 'add_after_mid', 'add_after_last', 'add_before_first', 'add_before_mid', 'remove_only', 'remove_first',
           'remove_mid_cursor', 'remove_last', 'remove_range_mid', 'remove_range_head', 'remove_range_tail', 'remove_range_all']:
     HARNESSES.append(Harness('builder', 'h_edit_' + n, unwind=17, mem_gb=6, timeout=600, bounds='one list edit (%s) on a well-formed list of up to 4 label nodes with arbitrary label ids; list shape, edited position and cursor position are concrete per harness' % n))
+for n in ('6_4', '5_4', '6_5', '4_6', '6_2'):
+    HARNESSES.append(Harness('builder', 'h_replay_ii_' + n, unwind=17, mem_gb=6, timeout=600, bounds='two consecutive instruction nodes with %s operands (arbitrary contents): the second replay must not see operands of the first' % n.replace('_', ' and ')))
+HARNESSES.append(Harness('builder', 'h_capture_validated', unwind=17, mem_gb=8, timeout=900, bounds='BaseBuilder::_emit with intermediate validation on and a validator stub that refuses nondeterministically; arbitrary options, extra register, comment; operands concrete'))
 EXPLANATION = 'bounded symbolic execution of the real BaseBuilder capture and serialize_to replay against a recording emitter'
 OUTSIDE = ['byte equality for whole programs (follows from capture/replay identity plus determinism of the assembler back end; not re-proved)', 'Compiler-specific nodes (func/invoke)']
-ASSUMPTIONS = ['extension operands (4th..6th) are passed densely, as the typed emit() overloads do', 'Arena replaced by the malloc-backed stub include/arena_stub.h (one malloc per request; the arena itself is C18)', 'destination emitter is a recording model that clears the one-shot state as real emitters do']
+ASSUMPTIONS = ['the instruction validator is a stub with a nondeterministic verdict in h_capture_validated (the real validator is C13/C14); failure path without text formatting', 'extension operands (4th..6th) are passed densely, as the typed emit() overloads do', 'Arena replaced by the malloc-backed stub include/arena_stub.h (one malloc per request; the arena itself is C18)', 'destination emitter is a recording model that clears the one-shot state as real emitters do']
